@@ -125,8 +125,11 @@ def fmt_line(start, end, mtime, name, hash_hex):
     return b"%d\t%d\t%d\t%s\t%x\n" % (start, end, mtime, name, int(hash_hex, 16))
 
 
-def check_loaded(where, raw, loaded, load_status, warn, written, truth, long_ok=()):
-    """loaded: {hexname: {hash, mtime, start, end}} as ninja loaded it from bytes `raw`."""
+def check_loaded(where, raw, loaded, load_status, warn, written, truth, long_ok=(), latest=False):
+    """loaded: {hexname: {hash, mtime, start, end}} as ninja loaded it from bytes `raw`.
+    latest: the file is the real one (not a truncated copy), so truth[name] - the last record completely written for
+    name and not cut off since - must be what rules: an *older* genuine record in its place would make the output look up
+    to date to the command that wrote that older record."""
     status, exp = model_load(raw, written)
     if load_status == 0:
         raise Violation("%s: load reported LOAD_ERROR on a torn/damaged log (%r)" % (where, warn))
@@ -158,6 +161,15 @@ def check_loaded(where, raw, loaded, load_status, warn, written, truth, long_ok=
     for name in got:
         if name not in exp:
             raise Violation("%s: entry for %r loaded but no complete line names it" % (where, name))
+    if latest and status == 'ok':
+        for name, t in truth.items():
+            if isinstance(name, tuple) or name not in got or len(name) > (250 << 10):
+                continue
+            g = got[name]
+            if (g['hash'], g['mtime']) not in ((t['hash'], t['mtime']), t.get('alt')) and (g['hash'], g['mtime']) in truth.get(('history', name), []):
+                raise Violation("%s: the record completely written last for %r (hash %s, mtime %d) is not the one that rules after loading: an older "
+                                "record (hash %s, mtime %d) does, so the output can look up to date although its last build used another command"
+                                % (where, name, t['hash'], t['mtime'], g['hash'], g['mtime']))
 
 
 def translate(h):
@@ -219,11 +231,11 @@ def run_history(probe, h):
         def rawbytes(r):
             return bytes.fromhex(r['bytes']) if r.get('exists', True) else None
 
-        def load_check(where):
+        def load_check(where, latest=True):
             _, rr = nxt('raw')
             _, rl = nxt('load_dump')
             b = bytes.fromhex(rr['bytes'])
-            check_loaded(where, b if (b or rl['exists']) else None, rl['entries'], rl['load'], rl['warn'], written, truth)
+            check_loaded(where, b if (b or rl['exists']) else None, rl['entries'], rl['load'], rl['warn'], written, truth, latest=latest)
             return b, rl
 
         is_open = False
@@ -235,7 +247,7 @@ def run_history(probe, h):
                 _, r = nxt('open')
                 if r['load'] == 0:
                     raise Violation("open: LOAD_ERROR %r" % r['warn'])
-                check_loaded('open', before, r['entries'], r['load'], r['warn'], written, truth)
+                check_loaded('open', before, r['entries'], r['load'], r['warn'], written, truth, latest=True)
                 if not r.get('open_ok', True):
                     raise Violation("open: OpenForWrite failed: %r" % r.get('open_err'))
                 is_open = True
@@ -248,6 +260,9 @@ def run_history(probe, h):
                         raise Violation("open (automatic recompaction) lost the record of live output %r" % n)
                 if any(n in dead and n not in got for n in exp):
                     labels.add('auto_recompaction_dropped_dead')
+                for n in dead:
+                    if n not in got:
+                        truth.pop(n, None)
             elif k == 'record' and is_open:
                 for _ in range(op['rep']):
                     p, r = nxt('record')
@@ -274,6 +289,8 @@ def run_history(probe, h):
                 _, r = nxt('recompact')
                 if not r['ok']:
                     raise Violation("recompact failed: %r" % r['err'])
+                for n in dead:
+                    truth.pop(n, None)
                 _, after = load_check('after recompact')
                 b_ent = {bytes.fromhex(x): v for x, v in before['entries'].items()}
                 a_ent = {bytes.fromhex(x): v for x, v in after['entries'].items()}
@@ -347,6 +364,22 @@ def run_history(probe, h):
                 if n > len(HEADER) and n < len(b) and b[n - 1:n] != b"\n":
                     tore_inside = True
                     labels.add('tear_inside_record')
+                # what was cut off was never (completely) written as far as any later load can tell
+                _st, surv = model_load(b[:n], written)
+                for nm in [x for x in truth if not isinstance(x, tuple)]:
+                    e_ = surv.get(nm)
+                    if e_ is not None and e_['kind'] == 'intact':
+                        f_ = e_['line'].split(b"\t")
+                        truth[nm] = dict(hash="%016x" % int(f_[4], 16), mtime=int(f_[2]))
+                    else:
+                        del truth[nm]
+                # a tear that took only the final newline leaves a record that is complete but for its terminator: once a
+                # later session terminates the line it is a genuine record again - either reading is the latest one
+                tail = b[:n].rsplit(b"\n", 1)[-1]
+                if tail + b"\n" in written:
+                    f_ = tail.split(b"\t")
+                    alt = dict(hash="%016x" % int(f_[4], 16), mtime=int(f_[2]))
+                    truth.setdefault(f_[3], dict(alt)).update(alt=(alt['hash'], alt['mtime']))
                 load_check('after tear')
             elif k == 'version' and not is_open:
                 nxt('set_raw')
